@@ -47,3 +47,72 @@ package sqlx
 //@   ensures refused-snapshot-touches-nothing: migrate.GvcSnapErr != nil ==> err != nil && migrate.GvcDirty == old(migrate.GvcDirty) && migrate.GvcRestoreCalls == old(migrate.GvcRestoreCalls)
 //@   ensures always-restored: migrate.GvcSnapErr == nil ==> migrate.GvcRestoreCalls == old(migrate.GvcRestoreCalls) + 1 && !migrate.GvcSnapOpen && (migrate.GvcRestoreErr == nil ==> !migrate.GvcDirty)
 //@   ensures restore-error-reported: migrate.GvcSnapErr == nil && migrate.GvcRestoreErr != nil ==> err != nil
+
+// ---------------------------------------------------------------------------------------
+// C16: a plan scoped to one schema is refused when its changes name more than one schema
+
+//@ spec func gvcHasKey[V any](m map[string]V, k string) bool { _, ok := m[k]; return ok }
+//@ spec func gvcTableOf(c schema.Change) *schema.Table {
+//@ spec 	switch c := c.(type) {
+//@ spec 	case *schema.AddTable:
+//@ spec 		return c.T
+//@ spec 	case *schema.ModifyTable:
+//@ spec 		return c.T
+//@ spec 	case *schema.DropTable:
+//@ spec 		return c.T
+//@ spec 	}
+//@ spec 	return nil
+//@ spec }
+//@ spec func gvcTableSchema(c schema.Change) string {
+//@ spec 	t := gvcTableOf(c)
+//@ spec 	if t == nil || t.Schema == nil {
+//@ spec 		return ""
+//@ spec 	}
+//@ spec 	return t.Schema.Name
+//@ spec }
+//@ spec func gvcEnumSchema(col *schema.Column) string {
+//@ spec 	e, ok := col.Type.Type.(*schema.EnumType)
+//@ spec 	if !ok || e.Schema == nil {
+//@ spec 		return ""
+//@ spec 	}
+//@ spec 	return e.Schema.Name
+//@ spec }
+//@ spec func gvcChangeOK(c schema.Change) bool {
+//@ spec 	if c == nil {
+//@ spec 		return false
+//@ spec 	}
+//@ spec 	switch c := c.(type) {
+//@ spec 	case *schema.ModifySchema:
+//@ spec 		return c != nil && c.S != nil
+//@ spec 	case *schema.AddTable:
+//@ spec 		return c != nil && gvcTableOK(c.T)
+//@ spec 	case *schema.ModifyTable:
+//@ spec 		return c != nil && gvcTableOK(c.T)
+//@ spec 	case *schema.DropTable:
+//@ spec 		return c != nil && gvcTableOK(c.T)
+//@ spec 	}
+//@ spec 	return true
+//@ spec }
+//@ spec func gvcTableOK(t *schema.Table) bool {
+//@ spec 	return t != nil && (forall i int :: 0 <= i && i < len(t.Columns) ==> t.Columns[i] != nil && t.Columns[i].Type != nil)
+//@ spec }
+
+//@ func CheckChangesScope(opts migrate.PlanOptions, changes []schema.Change) (err error)
+//@   requires (forall i int :: 0 <= i && i < len(changes) ==> gvcChangeOK(changes[i]))
+//@   ensures schema-changes-rejected: (exists i int :: 0 <= i && i < len(changes) && (GvcIs[*schema.AddSchema](changes[i]) || GvcIs[*schema.DropSchema](changes[i]))) ==> err != nil
+//@   ensures two-table-schemas-rejected: (exists i int, j int :: 0 <= i && i < len(changes) && 0 <= j && j < len(changes) &&
+//@           gvcTableSchema(changes[i]) != "" && gvcTableSchema(changes[j]) != "" && gvcTableSchema(changes[i]) != gvcTableSchema(changes[j])) ==> err != nil
+//@   ensures foreign-enum-schema-rejected: (exists i int, k int :: 0 <= i && i < len(changes) && gvcTableOf(changes[i]) != nil &&
+//@           0 <= k && k < len(gvcTableOf(changes[i]).Columns) && gvcEnumSchema(gvcTableOf(changes[i]).Columns[k]) != "" &&
+//@           gvcTableSchema(changes[i]) != "" && gvcEnumSchema(gvcTableOf(changes[i]).Columns[k]) != gvcTableSchema(changes[i])) ==> err != nil
+//@   loop 1 invariant 0 <= loopk && loopk <= len(changes) && names != nil
+//@   loop 1 invariant (forall a string :: gvcHasKey(names, a) ==> len(names) >= 1)
+//@   loop 1 invariant (forall a string, b string :: gvcHasKey(names, a) && gvcHasKey(names, b) && a != b ==> len(names) >= 2)
+//@   loop 1 invariant (forall i int :: 0 <= i && i < loopk ==> !GvcIs[*schema.AddSchema](changes[i]) && !GvcIs[*schema.DropSchema](changes[i]))
+//@   loop 1 invariant (forall i int :: 0 <= i && i < loopk && gvcTableSchema(changes[i]) != "" ==> gvcHasKey(names, gvcTableSchema(changes[i])))
+//@   loop 1 invariant (forall i int, k int :: 0 <= i && i < loopk && gvcTableOf(changes[i]) != nil && 0 <= k && k < len(gvcTableOf(changes[i]).Columns) &&
+//@           gvcEnumSchema(gvcTableOf(changes[i]).Columns[k]) != "" ==> gvcHasKey(names, gvcEnumSchema(gvcTableOf(changes[i]).Columns[k])))
+//@   loop 2 invariant 0 <= loopk && loopk <= len(t.Columns) && names != nil && t != nil
+//@   loop 2 invariant (forall a string :: gvcHasKey(names, a) ==> len(names) >= 1)
+//@   loop 2 invariant (forall a string, b string :: gvcHasKey(names, a) && gvcHasKey(names, b) && a != b ==> len(names) >= 2)
+//@   loop 2 invariant (forall k int :: 0 <= k && k < loopk && gvcEnumSchema(t.Columns[k]) != "" ==> gvcHasKey(names, gvcEnumSchema(t.Columns[k])))
